@@ -40,7 +40,7 @@ Print Assumptions C04_evalmon_is_recent_calls.
 Theorem C04_de_history :
   forall (N : Num) (inf : T N), StrictWeak (T N) (ltb N) -> (forall p, is_top N (add N inf p)) -> is_top N inf ->
   forall (npop : nat) (de2 : bool) (ops : list (op N (de_in N))) (sc : sys N * de N),
-  Forall (clean_op N _ (de_ok_in N npop) false) ops -> P_de N inf npop (fst sc) (snd sc) ->
+  Forall (clean_op N _ (de_ok_in N npop) false false) ops -> P_de N inf npop (fst sc) (snd sc) ->
   let r := run N inf _ _ (de_algo N inf de2) sc ops in
   desc N (map snd (stepmon N (fst r))) /\
   (stepmon N (fst r) <> [] -> snd (last (stepmon N (fst r)) ([], inf)) = snd (de_best N inf (snd r))).
@@ -67,7 +67,7 @@ Theorem C04_nm_last_record_is_best :
   forall (N : Num) (inf : T N), (forall p, is_top N (add N inf p)) -> is_top N inf ->
   forall cons0 : vec N -> vec N, (forall x, cons0 (cons0 x) = cons0 x) ->
   forall (ops : list (op N (nm_in N))) (sc : sys N * nm N),
-  Forall (clean_op N _ (nm_ok_in N) true) ops -> P_nm N inf cons0 (fst sc) (snd sc) ->
+  Forall (clean_op N _ (nm_ok_in N) true false) ops -> P_nm N inf cons0 (fst sc) (snd sc) ->
   let r := run N inf _ _ (nm_algo N inf) sc ops in
   stepmon N (fst r) <> [] -> sim N (snd r) <> [] ->
   last (stepmon N (fst r)) ([], inf) = nm_best N inf (snd r).
@@ -81,7 +81,7 @@ Print Assumptions C04_nm_last_record_is_best.
    the solver's energy history is the reported best energy after every operation of a clean run (any cost, constraints, line searches) *)
 Theorem C04_powell_history_last_is_best :
   forall (N : Num) (inf : T N) (ops : list (op N (pw_in N))) (sc : sys N * pw N),
-  Forall (clean_op N _ (pw_ok_in N) false) ops -> H_pw N inf (fst sc) (snd sc) ->
+  Forall (clean_op N _ (pw_ok_in N) false false) ops -> H_pw N inf (fst sc) (snd sc) ->
   let r := run N inf _ _ (pw_algo N inf) sc ops in
   energy_history N _ _ (pw_algo N inf) (fst r) (snd r) <> [] ->
   last (energy_history N _ _ (pw_algo N inf) (fst r) (snd r)) inf = snd (pw_best N inf (snd r)).
